@@ -184,4 +184,15 @@ def r5_regeneration_config(a, tier):
     return rep
 
 
-RULES = [r1_ebnf_vs_parser, r2_ebnf_vs_model, r3_config, r4_regeneration_literals, r5_regeneration_config]
+def r6_optimizer(a, tier):
+    """the regenerated bootstrap is generated from the OPTIMIZED model: the optimisation pass preserves every expression"""
+    from . import c01_optimizer
+    rep = c01_optimizer.r11_optimizer(a, tier)
+    rep.rule = 'C15.R6'
+    for f in rep.findings:
+        f.rule = 'C15.R6'
+    rep.text = '[= C01.R11] ' + rep.text
+    return rep
+
+
+RULES = [r1_ebnf_vs_parser, r2_ebnf_vs_model, r3_config, r4_regeneration_literals, r5_regeneration_config, r6_optimizer]
